@@ -43,6 +43,16 @@ def _fmt_strings(f: FuncInfo) -> List[Tuple[str, ast.AST]]:
     return out
 
 
+def _local_defs(f: FuncInfo) -> Dict[str, ast.AST]:
+    cnt: Dict[str, int] = {}
+    val: Dict[str, ast.AST] = {}
+    for a in f.body_nodes():
+        if isinstance(a, ast.Assign) and len(a.targets) == 1 and isinstance(a.targets[0], ast.Name):
+            cnt[a.targets[0].id] = cnt.get(a.targets[0].id, 0) + 1
+            val[a.targets[0].id] = a.value
+    return {k: v for k, v in val.items() if cnt[k] == 1}
+
+
 def run(ctx: Ctx) -> RuleResult:
     repo = ctx.repo
     res = RuleResult('R-MANGLE-PROTOCOL', 'imported definitions are renamed consistently: names, parameters, every symbol; spelling-derived '
@@ -233,6 +243,35 @@ def run(ctx: Ctx) -> RuleResult:
     if not ok:
         res.finding(df, df.node, '_define no longer refuses redefinition without %override / an %override of an undefined name',
                     construct='m6:define')
+    # ---- m5 (pruning): _remove_unused keeps exactly the definitions reachable from the imported names ---------------------------
+    ru = repo.func(LG + 'GrammarBuilder._remove_unused')
+    site = '%s %s' % (ru.loc(), ru.qual)
+    sn_r = ru.self_name() or 'self'
+    stores = [a for a in ru.body_nodes() if isinstance(a, ast.Assign) and any(norm(t) == '%s._definitions' % sn_r for t in a.targets)]
+    ok = len(stores) == 1 and isinstance(stores[0].value, ast.DictComp) and len(stores[0].value.generators) == 1
+    why = 'the definitions are not rebuilt by one filtered comprehension'
+    if ok:
+        dc = stores[0].value
+        g = dc.generators[0]
+        keyv = g.target.elts[0].id if isinstance(g.target, ast.Tuple) and g.target.elts and isinstance(g.target.elts[0], ast.Name) else None
+        over_defs = norm(g.iter) == '%s._definitions.items()' % sn_r
+        dl = _local_defs(ru)
+
+        def from_bfs(e: ast.AST, depth=0) -> bool:
+            if isinstance(e, ast.Call) and any(isinstance(c, ast.Call) and isinstance(c.func, ast.Name) and c.func.id == 'bfs' for c in ast.walk(e)):
+                return True
+            if isinstance(e, ast.Name) and e.id in dl and depth < 4:
+                return from_bfs(dl[e.id], depth + 1)
+            return False
+        ok = keyv is not None and over_defs and len(g.ifs) >= 1 and all(
+            isinstance(t, ast.Compare) and len(t.ops) == 1 and isinstance(t.ops[0], ast.In) and norm(t.left) == keyv and from_bfs(t.comparators[0])
+            for t in g.ifs) and norm(dc.key) == keyv
+        why = 'filter %s' % [norm(t) for t in g.ifs]
+    res.ob(site, 'm5: after an import only definitions reachable from the imported names remain (filter = membership in the closure, nothing else)', ok)
+    if not ok:
+        res.finding(ru, stores[0] if stores else ru.node, '_remove_unused no longer keeps exactly the definitions reachable from the imported names '
+                    '(%s): an unused terminal or rule of the imported grammar leaks into the importer -- an unused keyword terminal then '
+                    'captures the importer\'s own string literal' % why, construct='m5:prune-filter')
     # ---- e1: %extend changes the existing definition in place ------------------------------------------------------------
     # (terminals are expanded by reference: another definition that already mentions the extended one shares its tree, and an
     #  imported grammar's definitions reach the importer as the same objects)
